@@ -32,7 +32,7 @@ var realStub = map[string]string{
 var props = map[string]*propCfg{
 	"C09": {
 		ID: "C09", Scenario: "shared", Race: true,
-		QuickRuns: 48000, ThorRuns: 250000, QuickChunk: 250, ThorChunk: 1000, ChunkTimeoS: 300,
+		QuickRuns: 36000, ThorRuns: 250000, QuickChunk: 250, ThorChunk: 1000, ChunkTimeoS: 300,
 		Rule: "one evaluation = one simulated run: a seed-derived pool of formulas parsed once, 2-8 task goroutines each with its own runner, data map and op script (EVAL/FIELDS/PARSE/FORMAT/POOL_FLUSH) executed under the token scheduler with a seed-chosen strategy, then the same scripts sequentially on re-parsed trees. A run is non-trivial when at least one context switch happened inside a library call; distinct = distinct (sequential outcome hash, schedule trace hash) pairs.",
 		Assumptions: []string{
 			"yield points are statement boundaries of package formula only; code inside decimal and the standard library runs atomically from the scheduler's point of view (the race detector still sees its memory accesses)",
@@ -69,7 +69,7 @@ var props = map[string]*propCfg{
 	},
 	"C08": {
 		ID: "C08", Scenario: "purity", Race: false,
-		QuickRuns: 80000, ThorRuns: 1500000, QuickChunk: 400, ThorChunk: 4000, ChunkTimeoS: 600,
+		QuickRuns: 60000, ThorRuns: 1500000, QuickChunk: 400, ThorChunk: 4000, ChunkTimeoS: 600,
 		Rule: "one evaluation = one simulated run: a history of 5-200 operations (REPEAT_EVAL of a corpus entry with a fresh runner and fresh equal data, REPARSE, FIELDS, unrelated NOISE formulas, POOL_FLUSH, CLOCK_JUMP) on one task or on 2-4 tasks interleaved at statement level, under a fresh map-iteration order for every repetition and a seed-chosen process zone. Every repetition is compared with the baseline the worker process computed in pristine state at start (and baselines are compared across the ~60 worker processes); trees are deep-dumped (all fields, exported or not) after every evaluation and analysis. Non-trivial: at least two repeated evaluations in the history; distinct = distinct hash of the op scripts.",
 		Assumptions: []string{
 			"`now` and `toDay` are excluded as the statement says; formulas using `date` are compared only under the baseline's process zone",
